@@ -109,6 +109,23 @@ class _Complement(ast.NodeTransformer):
         # (a, b)[1] -> b
         if isinstance(node.value, (ast.Tuple, ast.List)) and isinstance(node.slice, ast.Constant) and isinstance(node.slice.value, int) and not isinstance(node.slice.value, bool) and -len(node.value.elts) <= node.slice.value < len(node.value.elts) and not any(isinstance(e, ast.Starred) for e in node.value.elts):
             return node.value.elts[node.slice.value]
+        # [f(j) for j in range(n)][i] -> f(i): the i-th element of a list built over the positions
+        v = node.value
+        if isinstance(v, ast.ListComp) and len(v.generators) == 1 and not v.generators[0].ifs and isinstance(v.generators[0].target, ast.Name) and not isinstance(node.slice, (ast.Slice, ast.Tuple)):
+            it = v.generators[0].iter
+            if isinstance(it, ast.Call) and isinstance(it.func, ast.Name) and it.func.id == "range" and not it.keywords and (len(it.args) == 1 or (len(it.args) == 2 and isinstance(it.args[0], ast.Constant) and it.args[0].value == 0)):
+                from engine.util import clone_ast
+
+                tv = v.generators[0].target.id
+                idx = node.slice
+
+                class R(ast.NodeTransformer):
+                    def visit_Name(s_, n):
+                        if n.id == tv and isinstance(n.ctx, ast.Load):
+                            return clone_ast(idx)
+                        return n
+
+                return R().visit(clone_ast(v.elt))
         return node
 
     def visit_JoinedStr(self, node):
